@@ -7,11 +7,12 @@ import coqlit as L
 ID = "C09"
 COQ_PROPERTY_FILE = "Properties/C09.v"
 COQ_DEPS = ["Common/ListX.v", "Common/ObsHash.v", "Common/Reach.v", "Generated/Tables.v", "Model/LegacyNbhd.v",
-            "Proofs/LegacyNbhdProofs.v", "Model/LegacyHexNet.v", "Proofs/LegacyHexNetProofs.v"]
+            "Proofs/LegacyNbhdProofs.v", "Proofs/LegacyNbhdBridge.v", "Model/LegacyHexNet.v", "Proofs/LegacyHexNetProofs.v"]
 COQ_IMPORTS = "From Mesa Require Import Model.LegacyNbhd Model.LegacyHexNet."
 COQ_CASE_TYPE = "case9"
 COQ_RUN = "run_case9"
-TABLE_CONSTRUCTS = ["grid_cache_key", "lhex_even_col", "lhex_odd_col", "hex_cache_key"]
+TABLE_CONSTRUCTS = ["grid_cache_key", "lhex_even_col", "lhex_odd_col", "hex_cache_key", "grid_nbhd_skeleton",
+                    "grid_out_of_bounds_code", "grid_nbhd_guard_code", "grid_nbhd_fast_code", "grid_nbhd_slow_code"]
 SOURCE_FUNCS = [("mesa/space.py", "_Grid.get_neighborhood"), ("mesa/space.py", "_Grid.iter_neighbors"),
                 ("mesa/space.py", "_Grid.out_of_bounds"), ("mesa/space.py", "_Grid.iter_cell_list_contents"),
                 ("mesa/space.py", "_HexGrid.get_neighborhood"), ("mesa/space.py", "_HexGrid.iter_neighbors"),
